@@ -194,6 +194,16 @@ def rule_dup(ctx):
     rep.floor('section merges', len(merges), 2)
     asserts = [n for n in A.walk_local(fn) if isinstance(n, ast.Assert)]
     assigns = [n for n in A.walk_local(fn) if isinstance(n, ast.Assign) and len(n.targets) == 1 and isinstance(n.targets[0], ast.Name)]
+    # `s |= more` / `s += more` on a name counts as the definition `s = s | more` for the purpose of expansion
+    for n in A.walk_local(fn):
+        if isinstance(n, ast.AugAssign) and isinstance(n.target, ast.Name):
+            syn = ast.Assign(targets=[ast.Name(id=n.target.id, ctx=ast.Store())],
+                             value=ast.BinOp(left=ast.Name(id=n.target.id, ctx=ast.Load()), op=n.op, right=n.value))
+            ast.copy_location(syn, n)
+            syn.lineno = n.lineno
+            syn._parent = A.parent(n)
+            syn._src_line = getattr(n, '_src_line', n.lineno)
+            assigns.append(syn)
 
     # the accumulator the sections are merged into is an object that changes: it is never replaced by its initial value
     no_expand = {r_ for m_ in merges for r_ in A.names_in(m_.func.value)[:1]}
